@@ -118,8 +118,10 @@ func bumpLastUnit(t []rune, k int) []rune {
 	return utf16.Decode(us)
 }
 
-func genMap(r *hx.Rng) *lmap {
-	w := r.Range(1, 4)
+func genMap(r *hx.Rng) *lmap { return genMapW(r, r.Range(1, 4)) }
+
+// genMapW: a generated code->text map whose codes are w bytes wide.
+func genMapW(r *hx.Rng, w int) *lmap {
 	var target int
 	switch r.Intn(10) {
 	case 0, 1, 2, 3, 4:
